@@ -1290,3 +1290,84 @@ func (la *LockAnalysis) AllocatedOnlyUnderSpawner(typ string, goLabel string) (b
 	}
 	return true, ""
 }
+
+// LockLeak: a function acquires a lock class itself and reaches a return with the
+// lock still held although it does not defer the unlock (and did not hold it at entry).
+type LockLeak struct {
+	Fn   *ssa.Function
+	Lock string
+	Pos  token.Pos
+}
+
+func (la *LockAnalysis) Leaks() []LockLeak {
+	var out []LockLeak
+	for _, f := range la.funcs {
+		entry, ok := la.entry[f]
+		if !ok {
+			continue
+		}
+		acquired := map[string]bool{}
+		deferred := map[string]bool{}
+		for _, b := range f.Blocks {
+			for _, in := range b.Instrs {
+				var com *ssa.CallCommon
+				isDefer := false
+				switch x := in.(type) {
+				case *ssa.Call:
+					com = &x.Call
+				case *ssa.Defer:
+					com = &x.Call
+					isDefer = true
+				}
+				if com == nil {
+					continue
+				}
+				cal := com.StaticCallee()
+				if cal == nil || cal.Signature.Recv() == nil || len(com.Args) == 0 {
+					continue
+				}
+				rt := cal.Signature.Recv().Type().String()
+				if rt != "*sync.Mutex" && rt != "*sync.RWMutex" {
+					continue
+				}
+				c := lockClassOf(com.Args[0])
+				switch cal.Name() {
+				case "Lock":
+					if !isDefer {
+						acquired[c] = true
+					}
+				case "RLock":
+					if !isDefer {
+						acquired[c+"(R)"] = true
+					}
+				case "Unlock":
+					if isDefer {
+						deferred[c] = true
+					}
+				case "RUnlock":
+					if isDefer {
+						deferred[c+"(R)"] = true
+					}
+				}
+			}
+		}
+		if len(acquired) == 0 {
+			continue
+		}
+		for _, b := range f.Blocks {
+			for _, in := range b.Instrs {
+				ret, ok := in.(*ssa.Return)
+				if !ok {
+					continue
+				}
+				held := la.heldAt[ret]
+				for c := range acquired {
+					if held[c] && !deferred[c] && !entry[c] {
+						out = append(out, LockLeak{f, c, ret.Pos()})
+					}
+				}
+			}
+		}
+	}
+	return out
+}
